@@ -774,9 +774,26 @@ func (s *Switch) ForwardPackets(linkQuit <-chan struct{},
 
 	// Now, forward any packets for circuits that were successfully added to
 	// the switch's circuit map.
-	for _, packet := range addedPackets {
+	for i, packet := range addedPackets {
 		err := s.routeAsync(packet, fwdChan, linkQuit)
 		if err != nil {
+			// The sending link (or the switch) is shutting down:
+			// this packet and the ones after it were never handed
+			// to the forwarder. Remove their freshly committed
+			// circuits again, otherwise the add is dropped as a
+			// duplicate when the link re-forwards it after a
+			// reconnect, although no packet is left in any
+			// mailbox.
+			keys := make([]CircuitKey, 0, len(addedPackets)-i)
+			for _, p := range addedPackets[i:] {
+				keys = append(keys, p.inKey())
+			}
+			delErr := s.circuits.DeleteCircuits(keys...)
+			if delErr != nil {
+				log.Errorf("unable to roll back circuits of "+
+					"unforwarded adds: %v", delErr)
+			}
+
 			return fmt.Errorf("failed to forward packet %w", err)
 		}
 		numSent++
